@@ -17,6 +17,7 @@
 package localstore
 
 import (
+	"bytes"
 	"context"
 	"errors"
 	"time"
@@ -266,6 +267,15 @@ func (db *DB) setRemove(batch driver.Batching, addr, rootAddr boson.Address) (gc
 			return 0, err
 		}
 		return 0, nil
+	}
+	if bytes.Equal(item.Address, rootItem.Address) {
+		// the file's own root chunk is removed: the file is gone and so is
+		// its whole gc entry, with everything it still counts
+		err = db.gcIndex.DeleteInBatch(batch, gcItem)
+		if err != nil {
+			return 0, err
+		}
+		return -int64(gcItem.GCounter), nil
 	}
 	if gcItem.GCounter > 1 {
 		gcItem.GCounter--
